@@ -1,4 +1,5 @@
 import GqlVerif.Proofs.C15
+import GqlVerif.Model.Gen.Consts
 /-!
 # C15 — Response / Error envelope accepts and preserves every spec-shaped body
 
@@ -265,6 +266,27 @@ theorem querybody_members (q : QueryBody) :
       Json.lookup "query" kvs = some (.str q.query) ∧
       Json.lookup "operationName" kvs = some (.str q.operationName) :=
   ⟨_, rfl, by simp, by simp [Json.lookup], by simp [Json.lookup], by simp [Json.lookup]⟩
+
+/-! ## the shape the envelope model was written for, against the source
+
+`Model/Envelope.lean` models what serde's derives do for five type definitions of `graphql_client/src/lib.rs`. The translator
+re-reads those definitions on every run (`Gen.envelopeShape`: derives, container attributes, and per member its name, type and
+serde attributes); the model's assumptions are written out here and compared: a new attribute (`deny_unknown_fields`,
+`skip_serializing_if`, `deserialize_with`, a `default`), a changed member type or a new member makes this obligation fail even
+before the differential run finds an input. A guard by evaluation, not a theorem about behaviour. -/
+
+def modelledEnvelopeShape : List (String × String × List String × List String × List (String × String × List String)) :=
+  [("QueryBody", "struct", ["Deserialize", "Serialize"], [],
+      [("variables", "Variables", []), ("query", "&'staticstr", []), ("operation_name", "&'staticstr", ["rename=\"operationName\""])]),
+   ("Location", "struct", ["Deserialize", "Serialize"], [], [("line", "i32", []), ("column", "i32", [])]),
+   ("PathFragment", "enum", ["Deserialize", "Serialize"], ["untagged"], [("Key", "String", []), ("Index", "i32", [])]),
+   ("Error", "struct", ["Deserialize", "Serialize"], [],
+      [("message", "String", []), ("locations", "Option<Vec<Location>>", []), ("path", "Option<Vec<PathFragment>>", []),
+       ("extensions", "Option<HashMap<String,serde_json::Value>>", [])]),
+   ("Response", "struct", ["Deserialize", "Serialize"], [],
+      [("data", "Option<Data>", []), ("errors", "Option<Vec<Error>>", []), ("extensions", "Option<HashMap<String,serde_json::Value>>", [])])]
+
+theorem envelope_shape_matches_source : modelledEnvelopeShape = Gen.envelopeShape := by rfl
 
 end C15
 end GqlVerif
